@@ -320,7 +320,16 @@ def partial_buffer_verdicts(ctx, P):
                         opt.add(int(m.group(1)))
             return [i for i in cs if i not in opt]
         uses_complete = sorted(q for q in seen if hard_complete(q))
-        restores = sorted(q for q in seen if ctx.wrap(ctx.f.bodies[q]).constructs(r'nom::(internal::)?Err$', 'Incomplete'))
+        # ... restored OUTSIDE every `complete` wrapper: an Incomplete produced by a parser that is itself handed to complete()
+        # (or by something it calls) is turned into an error again
+        wrapped = set()
+        for q in seen:
+            qb = ctx.wrap(ctx.f.bodies[q])
+            for i, t in qb.calls(r'nom::combinator::complete$'):
+                for a in t['args']:
+                    if isinstance(a, dict) and a.get('fn') in ctx.f.bodies:
+                        callees(a['fn'], wrapped)
+        restores = sorted(q for q in seen if q not in wrapped and ctx.wrap(ctx.f.bodies[q]).constructs(r'nom::(internal::)?Err$', 'Incomplete'))
         ctx.check('%s:S09-7:partial-buffer-verdict:%s' % (P, parser), 'R-sib',
                   '%s (driven by read_from_buf on partial buffers) never reports a hard error merely because its input ends inside a line: it uses no `complete` wrapper, or restores Incomplete for an unterminated line' % parser.split('::')[-1],
                   (not uses_complete) or bool(restores), function=parser, table=dict(complete_in=uses_complete, incomplete_restored_in=restores),
